@@ -76,6 +76,8 @@ fn int(v: &Value) -> Option<i64> {
 
 /// hook events of ONE conversion -> trace events; None if a position is not an integer
 fn project(raw: &[String], out: &mut Vec<Value>) -> Option<()> {
+    // `last_start_time` as the converter held it BEFORE the current object (exact bits; 0.0 at the start of a conversion)
+    let mut prev_last_bits: u64 = 0f64.to_bits();
     for e in raw {
         let Ok(v) = serde_json::from_str::<Value>(e) else { continue };
         match v["g"].as_str() {
@@ -96,6 +98,9 @@ fn project(raw: &[String], out: &mut Vec<Value>) -> Option<()> {
                     "fruit" => {
                         m.insert("ev".into(), json!("fruit"));
                         m.insert("off".into(), json!(int(&v["x_offset"])?));
+                        // the code truncates the DIFFERENCE of the two (possibly fractional) times
+                        let td = (f64::from_bits(v["t_bits"].as_u64()?) - f64::from_bits(prev_last_bits)) as i32;
+                        m.insert("td".into(), json!(td));
                     }
                     "stream" => {
                         m.insert("ev".into(), json!("stream"));
@@ -111,6 +116,7 @@ fn project(raw: &[String], out: &mut Vec<Value>) -> Option<()> {
                     }
                 }
                 common(&mut m)?;
+                prev_last_bits = v["last_t_bits"].as_u64()?;
                 out.push(Value::Object(m));
             }
             Some("catch_done") => {
